@@ -346,11 +346,20 @@ func (w *World) build(sc *Scenario, log *Log) {
 				b = hedgepolicy.BuilderWithDelay[R](p.Delay)
 			}
 			b.WithMaxHedges(p.MaxHedges).OnHedge(w.onEvent(i, LHedge))
-			for _, e := range p.Cancel.Errors {
-				b.CancelOnErrors(errTable[e])
-			}
-			for _, t := range p.Cancel.ErrTypes {
-				b.CancelOnErrorTypes(errTypeTargets[t])
+			if p.Cancel.Variadic {
+				if len(p.Cancel.Errors) > 0 {
+					b.CancelOnErrors(condErrors(p.Cancel)...)
+				}
+				if len(p.Cancel.ErrTypes) > 0 {
+					b.CancelOnErrorTypes(condErrTypes(p.Cancel)...)
+				}
+			} else {
+				for _, e := range p.Cancel.Errors {
+					b.CancelOnErrors(errTable[e])
+				}
+				for _, t := range p.Cancel.ErrTypes {
+					b.CancelOnErrorTypes(errTypeTargets[t])
+				}
 			}
 			for _, r := range p.Cancel.Results {
 				b.CancelOnResult(resVal(r))
